@@ -105,6 +105,9 @@ class Engine:
         self.hooks = {}                   # harness-level hooks
         self.lazy_pkgs = set()            # packages whose __init__ is only run on demand
         self.range_cap = None
+        self.known = []
+        self.known_hits = []
+        self.job_name = ""
         self.second_solver = False
         self.second_budget = 0
         self.second = {}
